@@ -11,6 +11,7 @@
 //!       //@source_sig <tokens>  optional: expected token string of the source signature
 //!       //@spec [tags=..]       requires / ensures / decreases
 //!       //@loop <n> [tags=..]   loop contract of the n-th loop (pre-order)
+//!       //@closure <n>          annotated header of the n-th closure (pre-order)
 //!       //@at entry | after_let <name> [occ] | before_call <name> <occ> | after_call <name> <occ>
 //!             | before_loop <n> | after_loop <n> | loop_end <n>      ghost text placed at an anchor
 //!   //@end
@@ -20,6 +21,7 @@
 //!   R3 X.iter_mut().for_each(|x| *x -= E)                -> verif_sub_assign_all(X, E)
 //!   R4 s![..e]                                           -> verif_slice_to(e)
 //!   R8 X.iter().cloned().zip(Y.into_iter()).collect()   -> verif_zip_collect(X, Y)
+//!   R9 closure header `|x|` -> annotated header from `//@closure n` (types, result name, ensures); body verbatim
 //!   R7 tail expression carrying an `after_call` anchor   -> { let __r = <tail>; <ghost>; __r }
 //! Exit codes: 0 ok, 3 lost anchor / item not found, 4 usage or internal error.
 
@@ -130,7 +132,7 @@ fn load_template(path: &Path, mode: &str, items: &mut Vec<TItem>) {
                     cur.as_mut().unwrap_or_else(|| die(4, format!("{}:{}: stray source_sig", pname, ln))).source_sig =
                         Some(tail.to_string());
                 }
-                "sig" | "spec" | "loop" | "at" => {
+                "sig" | "spec" | "loop" | "at" | "closure" => {
                     let c = cur.as_mut().unwrap_or_else(|| die(4, format!("{}:{}: stray section", pname, ln)));
                     let (pos, kv) = parse_kv(tail);
                     c.sections.push(Section { kind: word.to_string(), args: pos, tags: kv.get("tags").cloned(), text: String::new() });
@@ -299,6 +301,8 @@ struct BodyScan {
     stmt_stack: Vec<StmtInfo>,
     // macro / pattern rewrites: (start, end, replacement, rule)
     rewrites: Vec<(usize, usize, String, String)>,
+    // closures in pre-order: (header start, body start, body end, body is a block)
+    closures: Vec<(usize, usize, usize, bool)>,
 }
 
 struct Scanner<'a> {
@@ -436,6 +440,12 @@ impl<'a, 'ast> Visit<'ast> for Scanner<'a> {
         let (bc, _) = self.src.range(l.body.brace_token.span.close());
         self.scan.loops.push((bo, bc, s, e));
         syn::visit::visit_expr_for_loop(self, l);
+    }
+    fn visit_expr_closure(&mut self, c: &'ast syn::ExprClosure) {
+        let (hs, _) = self.src.range(c.span());
+        let (bs, be) = self.src.range(c.body.span());
+        self.scan.closures.push((hs, bs, be, matches!(&*c.body, syn::Expr::Block(_))));
+        syn::visit::visit_expr_closure(self, c);
     }
     fn visit_expr_call(&mut self, c: &'ast syn::ExprCall) {
         if let syn::Expr::Path(p) = &*c.func {
@@ -580,6 +590,12 @@ fn main() {
                 let src = &files[file];
                 let mut found = vec![];
                 find_fn(&src.ast.items, name, r.attrs.get("impl").map(|s| s.as_str()), &mut found);
+                if let Some(nth) = r.attrs.get("nth").and_then(|x| x.parse::<usize>().ok()) {
+                    if nth < found.len() {
+                        let f = found.remove(nth);
+                        found = vec![f];
+                    }
+                }
                 if found.len() != 1 {
                     die(3, format!("lost-anchor: {} candidates for fn {} (impl {:?}) in {} (template line {})",
                         found.len(), name, r.attrs.get("impl"), file, r.tline));
@@ -616,6 +632,21 @@ fn main() {
                             let n: usize = s.args.get(0).and_then(|x| x.parse().ok()).unwrap_or_else(|| die(4, format!("bad loop ordinal in {}", id)));
                             let lp = scan.loops.get(n).unwrap_or_else(|| die(3, format!("lost-anchor: loop {} of {} not found ({} loops)", n, id, scan.loops.len())));
                             edits.push((lp.0, lp.0, seq, format!("\n{}", s.text), json!({"kind": "loop", "label": format!("loop {}", n), "fn": id, "tags": stags})));
+                            seq += 1;
+                        }
+                        "closure" => {
+                            // R9: the closure header (parameters) is replaced by an annotated header
+                            // (types, named result, ensures); the closure body stays verbatim
+                            let n: usize = s.args.get(0).and_then(|x| x.parse().ok()).unwrap_or_else(|| die(4, format!("bad closure ordinal in {}", id)));
+                            let cl = scan.closures.get(n).unwrap_or_else(|| die(3, format!("lost-anchor: closure {} of {} not found ({} closures)", n, id, scan.closures.len())));
+                            let hdr = s.text.trim_end().to_string();
+                            if cl.3 {
+                                edits.push((cl.0, cl.1, seq, format!("{} ", hdr), json!({"kind": "closure", "label": format!("closure {}", n), "fn": id, "tags": stags})));
+                            } else {
+                                edits.push((cl.0, cl.1, seq, format!("{} {{ ", hdr), json!({"kind": "closure", "label": format!("closure {}", n), "fn": id, "tags": stags})));
+                                seq += 1;
+                                edits.push((cl.2, cl.2, seq, " }".to_string(), json!({"kind": "rewrite", "rule": "R9", "fn": id, "tags": body_tags})));
+                            }
                             seq += 1;
                         }
                         "at" => {
